@@ -246,6 +246,10 @@ func c11OwnLangMap(c *core.Ctx) bool {
 			own[t][code] = msg + " :: " + msg
 		}
 	}
+	// texts of codes that have no parameters of their own may still mention the value
+	own[zconst.TypeString][zconst.IssueCodeEmail] = "'{{value}}' is not an e-mail address ({{value}})"
+	own[zconst.TypeNumber][zconst.IssueCodeCoerce] = "'{{value}}' is not a number"
+	own[zconst.TypeString][zconst.IssueCodeRequired] = "required, got '{{value}}'"
 	fmtr := z.WithIssueFormatter(conf.NewDefaultFormatter(own))
 	var s string
 	var n int
@@ -261,6 +265,9 @@ func c11OwnLangMap(c *core.Ctx) bool {
 		{"Int.GT(3)", func() z.ZogIssueList { return z.Int().GT(3).Parse(1, &n, fmtr) }, tw("number must be greater than 3")},
 		{"String.HasPrefix(ab)", func() z.ZogIssueList { return z.String().HasPrefix("ab").Parse("xy", &s, fmtr) }, tw("string must start with ab")},
 		{"Int.OneOf", func() z.ZogIssueList { return z.Int().OneOf([]int{1, 2}).Parse(5, &n, fmtr) }, tw("number must be one of [1 2]")},
+		{"String.Email", func() z.ZogIssueList { return z.String().Email().Parse("nope", &s, fmtr) }, "'nope' is not an e-mail address (nope)"},
+		{"Int coerce", func() z.ZogIssueList { return z.Int().Parse("abc", &n, fmtr) }, "'abc' is not a number"},
+		{"String.Required", func() z.ZogIssueList { return z.String().Required().Parse("  ", &s, fmtr) }, "required, got '  '"},
 		{"Slice.Len(2)", func() z.ZogIssueList {
 			m := z.Slice(z.String()).Len(2).Parse([]any{"a"}, &l, fmtr)
 			return m["$root"]
